@@ -35,6 +35,10 @@ structure DoOp where
   writeFails : Bool
   /-- the caller's context is cancelled before the call -/
   preCancel : Bool := false
+  /-- the script contains paced reads (`p:`: the bytes arrive a third of the read timeout after the read was started):
+  how many of them a client gets to see before its total read timeout depends on the machine, so only the outcome is
+  compared (the harness adds a marker when reads were started after the total read timeout had passed) -/
+  paced : Bool := false
   script : List Ev
 
 def tokReq (s : String) : Option (UInt16 × NewArgs) :=
@@ -53,13 +57,14 @@ def parseDoOp (ts : List String) : Option DoOp :=
     let evs := if writeFails then evs.drop 1 else evs
     let preCancel := evs.head? == some "pc" || evs.head? == some "pcd"
     let evs := if preCancel then evs.drop 1 else evs
-    let script ← evs.mapM tokEv
+    let paced := evs.any (·.startsWith "p:")
+    let script ← (evs.map fun e => if e.startsWith "p:" then "d:" ++ (e.drop 2).toString else e).mapM tokEv
     -- nc: never connected; ncf: Connect was tried and failed (the dial function returned a connection AND an error)
     let nc := req.startsWith "nc:" || req.startsWith "ncf:"
     let reqS := if req.startsWith "ncf:" then (req.drop 4).toString else if nc then (req.drop 3).toString else req
     let (tid, args) ← if reqS == "nil" then some ((0 : UInt16), none) else (tokReq reqS).map fun (t, a) => (t, some a)
     pure { kind, hooks := ← tokBool hooks, flusher, nilReq := reqS == "nil", notConnected := nc, tid, args,
-           reply := ← unhex reply, writeFails, preCancel, script }
+           reply := ← unhex reply, writeFails, preCancel, paced, script }
   | _ => none
 
 def cerrStr : CErr → String
@@ -114,6 +119,7 @@ def DoOp.modelOut (op : DoOp) : String :=
       | _ => false
     let conn := "w:" ++ hex bytes ++ (if served.isEmpty then "" else "," ++ ",".intercalate (served.map hookEvStr))
     let shown := if op.hooks then logStr l1 else "-"
+    if op.paced then s!"{doOutStr o1} | - | {doOutStr o2} | -" else
     s!"{doOutStr o1} | {shown} | {doOutStr o2} | {conn}"
 
 /-! ## oracles -/
@@ -278,7 +284,7 @@ def judgeC12 (op : DoOp) (out : String) : Expect :=
 def judgeC19 (op : DoOp) (out : String) : Expect :=
   if (out.splitOn "OLD-BYTES-WERE-SENT").length > 1 then
     .pred false "the request value was changed by its owner between two calls; the bytes written (and shown to the hook) were those of the earlier call, not the request as it is encoded now" else
-  if !op.hooks || op.nilReq || op.notConnected then .noPanic else
+  if !op.hooks || op.nilReq || op.notConnected || op.paced then .noPanic else
   match out.splitOn " | " with
   | [o1, log, o2, conn] =>
     let cs := conn.splitOn ","
